@@ -62,7 +62,7 @@ class LodOp(Harness):
         m = self.method
         n = choice("n", range(self.maxn + 1))
         N = self.maxn
-        ragged = m in ("select", "unselect", "rename", "modify", "modify_if", "fill_missing_keys", "drop_na", "unique") and self.variant != "keys"
+        ragged = (m in ("select", "unselect", "rename", "modify", "modify_if", "fill_missing_keys", "drop_na", "unique") and self.variant != "keys") or self.variant == "ragged"
         keys = ["k", "v"] if m in ("sort", "unique", "filter", "filter_out", "select", "unselect", "rename", "fill_missing_keys") and self.variant != "one" else ["k"]
         items = mk_items(ctx, n, keys, ragged=ragged)
         inp = {"data": LoD(items), "method": m}
@@ -111,6 +111,10 @@ class LodOp(Harness):
             return [(f"does not raise ({out.type}: {out.msg[:60]})", T(False))]
         m = self.method
         data = inp["data"]; res = out["out"]
+        if isinstance(res, Raised):
+            if m == "sort" and self.variant == "ragged" and res.type == "KeyError":
+                return []          # sorting by a key that some item lacks may be refused
+            return [(f"does not raise ({res.type}: {res.msg[:60]})", T(False))]
         items = [dict(it) for it in data.items]
         ids = [it["id"] for it in items]
         n = len(items)
@@ -246,7 +250,7 @@ def harnesses(tier):
     q = tier == "quick"
     N = 3 if q else 4
     hs = [LodOp("filter", N, "function"), LodOp("filter_out", N, "function"), LodOp("filter", N, "kw"), LodOp("filter_out", N, "kw"),
-          LodOp("sort", 3 if q else 4), LodOp("unique", N, "keys"), LodOp("unique", 2 if q else 3, "ragged"),
+          LodOp("sort", 3 if q else 4), LodOp("sort", 2, "ragged"), LodOp("unique", N, "keys"), LodOp("unique", 2 if q else 3, "ragged"),
           LodOp("drop_na", 2 if q else 3)]
     for m in ("select", "unselect", "rename", "fill_missing_keys"):
         hs.append(LodOp(m, 2))
